@@ -325,3 +325,20 @@ Theorem C08_binop_check_sound_viterbi :
       (xr_of_trop (match op with 0%nat => tmax a b | 1%nat => tplus a b | _ => tsub a b end)) r = true.
 Proof. exact binop_check_sound_viterbi. Qed.
 Print Assumptions C08_binop_check_sound_viterbi.
+
+(** leastness oracle: verdict 0 means the implementation's star(x) lies below the exact solution y *)
+Theorem C08_least_check_sound_viterbi :
+  forall x y s, c08_least_check (2%nat, x, y, s) = 0%nat ->
+  forall a b, trop_of_xr (w_xr x) = Some a -> trop_of_xr (w_xr y) = Some b ->
+    b = add trop_ops (one trop_ops) (mul trop_ops a b) ->
+    xle (w_xr s) (xr_of_trop b) = true.
+Proof. exact least_check_sound_viterbi. Qed.
+Print Assumptions C08_least_check_sound_viterbi.
+
+Theorem C08_least_check_sound_real :
+  forall x y s, c08_least_check (0%nat, x, y, s) = 0%nat ->
+  forall a b, ereal_of_xr (w_xr x) = Some a -> ereal_of_xr (w_xr y) = Some b ->
+    b = add ereal_ops (one ereal_ops) (mul ereal_ops a b) ->
+    xle (w_xr s) (xr_of_ereal b) = true.
+Proof. exact least_check_sound_real. Qed.
+Print Assumptions C08_least_check_sound_real.
